@@ -716,6 +716,10 @@ def leftmost(e: ast.AST, call: Optional[ast.AST], name: Optional[str] = None) ->
         if isinstance(e, ast.Call) and isinstance(e.func, ast.Attribute) and e.func.attr == 'join' and len(e.args) == 1:
             e = e.args[0]
             continue
+        if call is not None and e is not call and isinstance(e, ast.Call) and e.args and any(x is call for x in ast.walk(e.args[0])):
+            # a text transformation applied to the comment block (escaping, indentation): wrapper(comment, ...)
+            e = e.args[0]
+            continue
         break
     if call is not None:
         return e is call
